@@ -162,6 +162,11 @@ func (mgr *blsManager) DecSignature(b []byte) (Signature, error) {
 	if len(b) != SignatureBytes {
 		return nil, ErrBytesLen
 	}
+	if b[0]&0x40 != 0 {
+		// compressed point at infinity: never a valid (aggregate) signature, and the pairing code dereferences
+		// nil on it (VerifyAggregateCommon), which crashed header verification on a forged header.
+		return nil, ErrInvalidSig
+	}
 	var comp CompressedSignature
 	copy(comp[:], b)
 	g1sig, err := g2pubs.DeserializeSignature(comp)
